@@ -155,8 +155,11 @@ def check_problem(ctx, prob, configs, ref_list_configs=(), source='gen',
         if status != 'ok':
             model_err = None
             if ctx.driver_ok:
+                # no trace to replay: run the model under a legal policy;
+                # whatever error remains is a genuine rejection
                 r = ctx.model('selection.select_all',
-                              model_input(prob, orders, {}, cutoff))
+                              model_input(prob, orders, {}, cutoff,
+                                          policy='first'))
                 model_err = r.get('err')
                 if model_err is None:
                     bad = [x.get('err') for x in r['ok'] if 'err' in x]
